@@ -3,6 +3,7 @@ package c19
 import (
 	"bytes"
 	"fmt"
+	"net/url"
 	"regexp"
 	"sort"
 	"strings"
@@ -103,17 +104,25 @@ func judgeHTML(c *vk.C, w *world2, p page, rep any) bool {
 		if strings.Contains(lower, strings.ToLower(marker(l))) {
 			c.Count("seen:"+sources[l]+"@"+p.kind, 1)
 		}
-		if !strings.ContainsAny(s, "<\"'") {
-			continue
+		// the string itself and, if it carries percent escapes, what they stand for: a page that shows the
+		// decoded form of an escaped "<" shows a "<"
+		cands := []string{s}
+		if dec, err := url.PathUnescape(s); err == nil && dec != s {
+			cands = append(cands, dec)
 		}
-		from := 0
-		for {
-			i := bytes.Index(p.body[from:], []byte(s))
-			if i < 0 {
-				break
+		for _, cs := range cands {
+			if !strings.ContainsAny(cs, "<\"'") {
+				continue
 			}
-			occ = append(occ, span{l, from + i, from + i + len(s)})
-			from += i + 1
+			from := 0
+			for {
+				i := bytes.Index(p.body[from:], []byte(cs))
+				if i < 0 {
+					break
+				}
+				occ = append(occ, span{l, from + i, from + i + len(cs)})
+				from += i + 1
+			}
 		}
 	}
 	inOcc := func(pos int) (byte, bool) { // position inside some verbatim copy
